@@ -1,4 +1,9 @@
+import e2e_e2esettings
+
 SPEC = {
+    # the property at its observation point: the started collector (real binary, no hook) must USE what the documented
+    # order resolves to — sockets, statistics, pid / log / cache files, judged from outside the process
+    "extra": [e2e_e2esettings.settings_cycles],
     "corr": [{"kind": "options", "quick": 8000, "thorough": 500000,
               "runner": {"pkg": "./vflow", "test": "TestVerifOptions", "race": False}}],
     "rule": "real NewOptions+flagSet on random subsets of {environment, file, command line} x 0..4 of the 45 documented "
@@ -7,10 +12,33 @@ SPEC = {
             "values and flags; the config flag in all four spellings package flag accepts (-config F, --config F, -config=F, "
             "--config=F), with an empty path, without a value as the last word; without an expectation (model against code "
             "only): the flag given twice, behind --, as the value of another flag; "
-            "non-trivial = the process reached the end of flagSet; distinct = distinct case line",
+            "non-trivial = the process reached the end of flagSet; distinct = distinct case line. "
+            "e2e-settings (e2e_e2esettings.py; the unmodified binary, no hook): 8 quick / 400 thorough settings cycles, run in parallel on "
+            "OS-chosen ports and private files: for each of 32 keys whose effect is visible from outside (the four UDP ports, bind "
+            "addresses, worker counts, enable switches, ipfix / netflow5 / netflow9 udp-size, both template cache files, stats-enabled / "
+            "-format / -http-addr / -http-port, pid-file, log-file, verbose, cpu-cap, dynamic-workers, producer-enabled, ipfix-rpc-enabled) "
+            "a subset of {environment, file, command line} provides distinct values (every key meets every subset once in eight consecutive "
+            "cycles; one lower source in three gives the built-in default explicitly; flags in both dash spellings, -k v / -k=v / bare "
+            "bool, given twice; boolean words of ParseBool; file scalars plain / quoted / of another type; a file nobody points at), the "
+            "config flag in its four spellings; the started collector is then observed from outside — its UDP sockets and listening "
+            "TCP socket (/proc/<pid>/net/* matched to the pid by socket inode), which statistics endpoints answer, Workers per protocol "
+            "and GOMAXPROCS, which listener counts a datagram sent to which port, the largest announcement / NetFlow v5 datagram a "
+            "listener takes whole (probes at the octet boundary of udp-size), pid file, log file, the log lines only one value of a "
+            "boolean produces, and after SIGTERM exit status 0 and which cache files exist and hold the announced templates — and every "
+            "observation must equal what the documented order gives for the draw (computed by the harness, no vflow code). Plus 8 quick "
+            "/ 80 thorough starts with one unparsable value / unknown flag / flag without value: exit status 1 (environment) or 2 "
+            "(command line), a message naming the flag or quoting the value, nothing left listening. No verdict (skipped:<reason>): a port "
+            "taken by another process (redrawn four times), unreadable statistics, probes the collector's own UDPCount says did not all "
+            "arrive; a finding must reproduce when the cycle is run again alone, twice",
     "assumptions": ["package flag / strconv / yaml.v2 semantics as transcribed in Vflow.Model.Options",
                     "the configuration file is given to the model as typed scalars (canonical integers, true/false, quoted strings)",
-                    "/etc/vflow/vflow.conf does not exist on the checking machine (the hook refuses to run otherwise)"],
+                    "/etc/vflow/vflow.conf does not exist on the checking machine (the hook refuses to run otherwise; the settings cycles "
+                    "then always name a file)",
+                    "settings cycles: the kernel's socket tables under /proc, loopback UDP / HTTP delivery and Go's net package (an IPv4 "
+                    "wildcard address opens the same dual-stack socket as no address) are observed, not modelled; the built-in defaults "
+                    "of the harness's key table are those of NewOptions (pinned by C17.gen_rows_*); the well-known default ports and the "
+                    "default files under /tmp and /var/run are never the expected value (a source always provides those keys; the default "
+                    "appears only explicitly in a lower source)"],
 }
 META = {
     "text": "Lean theorem over every option table, every environment, file system and argument list: if the process reaches "
@@ -22,12 +50,14 @@ META = {
             "shown necessary; the scan before the repair of F22 kept as old_locate_counterexample); "
             "the other stage orders are refuted by counterexample; the option table, the flag "
             "registrations (default = current value), the statement order of flagSet and the os.Args loop of loadCfg are regenerated from the Go AST "
-            "and pinned by decide; the model is tied to the real NewOptions+flagSet on random configurations.",
+            "and pinned by decide; the model is tied to the real NewOptions+flagSet on random configurations. At the property's "
+            "observation point — the started collector — settings cycles of the unmodified binary draw sources and values for 32 keys, "
+            "start it and compare its sockets, statistics, pid / log / cache files with the documented order's result, from outside the process.",
     "ref": "DESIGN.md §6 C17",
     "note": "Trusted: Lean kernel; hand-written model Vflow.Model.Options (flag/strconv/yaml semantics transcribed); factgen; "
-            "the hook and its generator. Out of scope: list-valued sflow-type-filter, "
+            "the hook and its generator; the settings-cycle harness (its key table, its reading of /proc and of the statistics). Out of scope: list-valued sflow-type-filter, "
             "non-canonical yaml scalars, fields without yaml tag as yaml keys. Recorded, not repaired: loadCfg takes the first "
             "config flag (package flag keeps the last) and also words package flag does not read as flags; "
             "-config / --config as the last word panics instead of flag's message.",
-    "technique": "Lean 4 proof (stages as data) + go/ast option table + differential run of the real option loading",
+    "technique": "Lean 4 proof (stages as data) + go/ast option table + differential run of the real option loading + end-to-end settings cycles of the binary",
 }
